@@ -104,6 +104,10 @@ def histories():
               [M(at(esi, 1), 8), M(esi, 8), M(esi, 32), M(at(esi, 1), 16)]))
     H.append(('narrow-stores-inside-wide-cell-then-wide-store', [[(M(edi, 32), eax)], [(M(at(edi, 2), 8), lo8(ebx))], [(M(edi, 16), lo16(ecx))], [(M(edi, 32), edx)]],
               [M(at(edi, 2), 8), M(edi, 16), M(at(edi, 3), 8), M(edi, 32)]))
+    # parts of a register as destinations (the constructor of ExprAff rewrites them to an assignment of the whole register)
+    H.append(('partial-register-writes', [[(lo8(eax), lo8(ebx))], [(hi8(eax), M(esi, 8))], [(lo16(ecx), lo16(eax))], [(M(esi, 16), lo16(ecx))], [(Sl(edx, 16, 32), M(esi, 16))]],
+              [M(esi, 8), M(at(esi, 1), 8)]))
+    H.append(('partial-register-constants', [[(eax, C(0x11223344))], [(hi8(eax), C(0xAB, 8))], [(lo8(eax), C(0xCD, 8))], [(ebx, Op('+', eax, C(1)))], [(lo16(ebx), Op('+', lo16(ebx), C(0xFFFF, 16)))]], []))
     # a count (or a factor) that the state binds to a constant while the value stays symbolic
     H.append(('shift-count-bound-to-zero', [[(ecx, C(0))], [(ebx, Op('<<', ebx, ecx))], [(edx, Op('>>>', edx, ecx))], [(edi, Op('a>>', eax, ecx))], [(eax, Op('&', eax, ecx))]], []))
     H.append(('shift-count-bound-to-32', [[(ecx, C(32))], [(ebx, Op('<<<', ebx, ecx))], [(edx, Op('>>', edx, Op('&', ecx, C(0x1F))))], [(eax, Op('*', eax, Op('>>', ecx, C(5))))]], []))
@@ -154,6 +158,11 @@ def concrete(history, probes, env):
             v = cv(src)
             if dst.KIND == 'Mem':
                 todo.append(('m', cv(dst.f('arg')) & 0xFFFFFFFF, dst.f('size') // 8, v))
+            elif dst.KIND == 'Slice':
+                # a part of a register (al, ah, ax): the other bits keep their value
+                rn, lo, hi = dst.f('arg').f('name'), dst.f('start'), dst.f('stop')
+                msk = ((1 << (hi - lo)) - 1) << lo
+                todo.append(('r', rn, None, (regs[rn] & ~msk) | ((v << lo) & msk)))
             else:
                 todo.append(('r', dst.f('name'), None, v))
         for kind, a, n, v in todo:
